@@ -51,8 +51,6 @@ func main() {
 		err = schemaCmd(os.Args[2:])
 	case "probe":
 		err = probeCmd(os.Args[2:])
-	case "blkprobe":
-		err = blkProbeCmd(os.Args[2:])
 	default:
 		fmt.Fprintln(os.Stderr, "unknown sub-command", os.Args[1])
 		os.Exit(64)
